@@ -36,7 +36,8 @@ mod verif_kani_supportedcone {
     }
 
     // C04 "degenerate ... empty or singleton cones": new_collapsed against its specification, written with index loops
-    fn check_on<const N: usize>(cones: [SupportedConeT<f64>; N]) {
+    // returns (some run merged two or more cones, an empty cone was skipped after a run had started)
+    fn check_on<const N: usize>(cones: [SupportedConeT<f64>; N]) -> (bool, bool) {
         let out = SupportedConeT::<f64>::new_collapsed(&cones);
 
         // (1) shape of the result: no empty cone, no SOC(1), no two adjacent nonnegative cones; (2) rows preserved
@@ -63,13 +64,15 @@ mod verif_kani_supportedcone {
         let mut j = 0;
         let mut run = 0;
         let mut in_run = false;
+        let mut merged = false;
+        let mut skipped_in_run = false;
         let mut i = 0;
         while i < N {
             let nv = cones[i].nvars();
             if nv != 0 {
                 if nn_like(&cones[i]) {
                     run += nv;
-                    if N >= 2 { kani::cover!(in_run); }
+                    if in_run { merged = true; }
                     in_run = true;
                 } else {
                     if in_run {
@@ -82,7 +85,7 @@ mod verif_kani_supportedcone {
                     j += 1;
                 }
             } else {
-                if N >= 3 { kani::cover!(in_run); }   // an empty cone after a run has started
+                if in_run { skipped_in_run = true; }
             }
             i += 1;
         }
@@ -93,18 +96,28 @@ mod verif_kani_supportedcone {
         }
         assert!(j == out.len());
         core::mem::forget(out); core::mem::forget(cones);
+        (merged, skipped_in_run)
     }
 
     #[kani::proof]
-    #[kani::unwind(6)]
+    #[kani::unwind(2)]
     fn new_collapsed_matches_spec_len1() { check_on([any_cone()]); }
     #[kani::proof]
-    #[kani::unwind(6)]
-    fn new_collapsed_matches_spec_len2() { check_on([any_cone(), any_cone()]); }
+    #[kani::unwind(3)]
+    fn new_collapsed_matches_spec_len2() {
+        let (merged, _) = check_on([any_cone(), any_cone()]);
+        kani::cover!(merged);
+    }
     #[kani::proof]
-    #[kani::unwind(6)]
-    fn new_collapsed_dev3() { check_on([cone_of(0)]); }
+    #[kani::unwind(4)]
+    fn new_collapsed_matches_spec_len3() {
+        let (merged, skipped) = check_on([any_cone(), any_cone(), any_cone()]);
+        kani::cover!(merged && skipped);
+    }
     #[kani::proof]
-    #[kani::unwind(6)]
-    fn new_collapsed_dev4() { check_on([cone_of(0), cone_of(2), cone_of(1), cone_of(0)]); }
+    #[kani::unwind(5)]
+    fn new_collapsed_matches_spec_len4() {
+        let (merged, skipped) = check_on([any_cone(), any_cone(), any_cone(), any_cone()]);
+        kani::cover!(merged && skipped);
+    }
 }
